@@ -191,7 +191,9 @@ class TaskResult(object):
         if self._started_on is not None:
             started = datetime.datetime.utcfromtimestamp(self._started_on)
             self.started = str(started.strftime('%Y-%m-%d %H:%M:%S.%f'))
-            self.elapsed = self._finished_on - self._started_on
+            # a task that was interrupted has no finish time
+            if self._finished_on is not None:
+                self.elapsed = self._finished_on - self._started_on
         return {'name': self.task.name,
                 'result': self.result,
                 'out': self.out,
